@@ -2108,12 +2108,24 @@ class TypeBlocks(ContainerOperand):
                 return b[row_key, column]
             return TypeBlocks.from_blocks(b[row_key, column])
 
+        # if no columns are selected no block is yielded: the row count is then that of the row selection
+        if row_key is None:
+            row_count = self._shape[0]
+        elif row_key.__class__ is slice:
+            row_count = len(range(*row_key.indices(self._shape[0]))) #type: ignore
+        elif isinstance(row_key, INT_TYPES):
+            row_count = 1
+        elif row_key.__class__ is np.ndarray and row_key.dtype == DTYPE_BOOL: #type: ignore
+            row_count = int(row_key.sum()) #type: ignore
+        else:
+            row_count = len(row_key) #type: ignore
+
         # pass a generator to from_block; will return a TypeBlocks or a single element
         return self.from_blocks(
                 self._slice_blocks(
                         row_key=row_key,
                         column_key=column_key),
-                shape_reference=self._shape
+                shape_reference=(row_count, self._shape[1])
                 )
 
     def _extract_iloc(self,
